@@ -6,7 +6,8 @@ import subprocess
 import sys
 import tempfile
 
-from common import Check, c_build, c_driver, CBUILD, ROOT, run
+from common import Check, c_build, c_driver, CBUILD, ROOT, run, cstr, clist, cbool, coq_eval, parse_defs, parse_nlist
+import re
 import girgen
 from c09 import norm_line, sort_attrs, first_diff
 from typelibcheck import decode_and_compare
@@ -32,6 +33,7 @@ def main(tier, seed):
     nns = 16 if tier == 'quick' else 300
     tmp = tempfile.mkdtemp(prefix='giv06')
     jobs, girs = [], []
+    blob_items, blob_cases = [], []
     try:
         for n, text in girgen.INCLUDED.items():
             open(os.path.join(tmp, n + '-1.0.gir'), 'w').write(text)
@@ -99,6 +101,29 @@ def main(tier, seed):
             if p.returncode != 0:
                 ck.failing_input('repository API walk crashed on the compiled typelib', dict(gir=xml), detail=p.stderr[-400:])
                 continue
+            # ArrayTypeBlob fields of every C-array parameter of a top-level function, as the API reports them, for
+            # Model.C06K.blob_carray (what the GIR says -> what the blob holds)
+            cur_fn = None
+            fmap = {e_['name']: e_ for e_ in ns['entries'] if e_.get('kind') == 'function'}
+            for l_ in api:
+                if l_.startswith('E function '):
+                    cur_fn = fmap.get(l_.split(' ')[2])
+                elif l_.startswith('E '):
+                    cur_fn = None
+                elif l_.startswith('  A ') and cur_fn is not None:
+                    pn_ = l_.split(' ')[3]
+                    par_ = next((q_ for q_ in cur_fn['params'] if q_['name'] == pn_), None)
+                    ma_ = re.search(r'type=array\[0,zero=(\d),len=(-?\d+),fixed=(-?\d+),ptr=(\d)\]', l_)
+                    if par_ is not None and ma_ and par_['type'][0] == 'array':
+                        o_ = par_['type'][2]
+                        hl_, hs_ = o_.get('length') is not None, o_.get('fixed') is not None
+                        z_ = bool(o_['zero']) if o_.get('zero') is not None else not (hl_ or hs_)
+                        rz_, rl_, rf_, rp_ = (int(x_) for x_ in ma_.groups())
+                        blob_items.append('(%d, {| ka_elem := []; ka_has_len := %s; ka_len := %d; ka_has_size := %s; ka_size := %d; ka_zero := %s; ka_ptr := true |}, '
+                                          '(%s, %s, %s, %s, %d))' % (len(blob_cases), cbool(hl_), o_.get('length') or 0, cbool(hs_), o_.get('fixed') or 0, cbool(z_),
+                                                                     cbool(rp_ == 1), cbool(rz_ == 1), cbool(rl_ >= 0), cbool(rf_ >= 0),
+                                                                     rl_ if rl_ >= 0 else (rf_ if rf_ >= 0 else 65535)))
+                        blob_cases.append(dict(function=cur_fn['name'], parameter=pn_, gir_options=o_, api=ma_.group(0)))
             exp = sort_attrs(girgen.expected_dump(ns))
             got = sort_attrs([norm_line(l) for l in api if not l.startswith('NS ')])
             exp, both = girgen.both_dimensions(exp, got)
@@ -133,6 +158,22 @@ def main(tier, seed):
         ck.extra['programs'] = len(jobs)
         ck.extra['disagreements_checked'] = len(jobs)
         ck.extra['typelib_bytes_decoded'] = nbytes
+    if ck.models_ok and blob_items:
+        text = '\n'.join(['From Coq Require Import List NArith Bool.', 'From GIV.Lib Require Import Regex Str.',
+                          'From GIV.Model Require Import C07T C06K.', 'Import ListNotations.', 'Local Open Scope N_scope.',
+                          'Definition cases : list (N * carray * (bool * bool * bool * bool * N)) := [%s].' % ';\n'.join(blob_items),
+                          "Definition bad := Eval vm_compute in map (fun c => fst (fst c)) (filter (fun c => let '(_, a, (p, z, hl, hs, d)) := c in",
+                          "  let '(p', z', hl', hs', d') := blob_carray true a in",
+                          "  negb (Bool.eqb p p' && Bool.eqb z z' && Bool.eqb hl hl' && Bool.eqb hs hs' && N.eqb d d')) cases).", 'Print bad.'])
+        rc, out = coq_eval('C06K_blobs', text)
+        if rc != 0:
+            ck.tie_broken('correspondence', 'array blob case file does not evaluate:\n' + out[-1500:])
+        else:
+            badb = parse_nlist(parse_defs(out)['bad'])
+            if badb:
+                ck.tie_broken('correspondence', 'the API reports other ArrayTypeBlob fields than Model.C06K.blob_carray for %d array parameters'
+                              % len(badb), blob_cases[badb[0]])
+        ck.extra['array_blobs_compared'] = len(blob_items)
     # the key under which serialize_type shares the blobs of C arrays, against Model.C06K.key_carray
     kexe, kout = c_driver('key_driver', os.path.join(ROOT, 'cshim', 'key_driver.c'), exclude=('girnode',))
     if not kexe:
@@ -149,7 +190,6 @@ def main(tier, seed):
         if kp.returncode != 0 or len(lines) != len(rows):
             ck.tie_broken('correspondence', 'key driver failed (rc=%d, %d of %d lines)' % (kp.returncode, len(lines), len(rows)), detail=None)
         elif ck.models_ok:
-            from common import cstr, clist, cbool, coq_eval, parse_defs, parse_nlist
             items = []
             for i, (r, l) in enumerate(zip(rows, lines)):
                 ek, ak = l.split('\t')
